@@ -151,7 +151,14 @@ def check_collect_quantity(e):
     except Exception as x:
         return None if isinstance(want, Refuse) else f"real raised {type(x).__name__}: {x}"
     if isinstance(want, Refuse):
-        return None if isinstance(got, Exception) else f"contract refuses ({want}) but real returned {got}"
+        if not isinstance(got, Exception):
+            return f"contract refuses ({want}) but real returned {got}"
+        from symplyphysics import Quantity
+        try:
+            q = Quantity(e)
+        except Exception:
+            return None
+        return f"contract refuses ({want}) but Quantity(...) was built with scale {q.scale_factor}"
     if isinstance(got, Exception):
         return f"contract accepts with {want} but real raised {got}"
     gv, gd = got
@@ -163,6 +170,28 @@ def check_collect_quantity(e):
         pass
     if not is_any_value(wv) and not dims_equiv(dim_vec(gd), wd):
         return f"dimension {dim_vec(gd)} != {wd}"
+    return _check_quantity_ctor(e, wv, wd)
+
+
+def _check_quantity_ctor(e, wv, wd):
+    """the constructor itself: Quantity(e) has the contract's scale factor and dimension (it must go through the collector for EVERY
+    expression, also one without any unit atom such as kilo*5)"""
+    from symplyphysics import Quantity
+    try:
+        complex(wv)
+    except Exception:
+        return None  # symbolic value: the constructor refuses by its own numeric check
+    try:
+        q = Quantity(e)
+    except Exception as x:
+        return f"contract accepts with {wv, wd} but Quantity(...) raised {type(x).__name__}: {x}"
+    try:
+        if sp.simplify(q.scale_factor - wv) != 0 and not (q.scale_factor is S.NaN and wv is S.NaN) and q.scale_factor != wv:
+            return f"Quantity(...).scale_factor {q.scale_factor} != {wv}"
+    except Exception:
+        pass
+    if not is_any_value(wv) and not dims_equiv(dim_vec(q.dimension), wd):
+        return f"Quantity(...).dimension {dim_vec(q.dimension)} != {wd}"
     return None
 
 
@@ -350,9 +379,14 @@ def gate_pool():
             u.length, u.time, angle, u.length * angle, sp.physics.units.Dimension(1), u.meter**2, sp.sqrt(u.meter), u.newton, u.kilogram * u.meter / u.second**2,
             # finite non-zero magnitudes outside the binary64 range: still NOT 0 / oo (the wildcard is decided on the exact value)
             sp.Float("1e-330") * u.coulomb, sp.Rational(1, 10**400) * u.coulomb, sp.Float("1e310") * u.coulomb, 10**400 * u.coulomb,
-            sp.Float("1e-300") * u.yocto * u.coulomb if hasattr(u, "yocto") else sp.Float("1e-324") * u.coulomb, sp.Rational(1, 10**400), 10**400]
+            sp.Float("1e-300") * u.yocto * u.coulomb if hasattr(u, "yocto") else sp.Float("1e-324") * u.coulomb, sp.Rational(1, 10**400), 10**400,
+            # base dimensions that have no SI base unit (information) must not drop out of the comparison
+            3 * u.byte, 8 * u.bit / u.second, 2 * u.byte * u.meter, u.bit**2, 5 / u.second, Quantity(5, dimension=u.bit.dimension)]
     exps = [u.length, u.time, angle, sp.physics.units.Dimension(1), u.length * angle, u.force, u.velocity, u.meter, u.second, u.radian, Quantity(1),
-            Quantity(0), u.newton, u.area, u.length**sp.Rational(1, 2)]
+            Quantity(0), u.newton, u.area, u.length**sp.Rational(1, 2),
+            # dimensionless only AFTER reduction in the dimension system (structurally not Dimension(1)); information; 1/time
+            u.velocity * u.time / u.length, u.energy / (u.force * u.length), (u.length**2)**sp.Rational(1, 2) / u.length, u.bit.dimension, 1 / u.time,
+            u.bit.dimension * u.length]
     return args, exps
 
 
@@ -532,6 +566,19 @@ def decorator_scenarios():
             return f()
         return thunk
     out.append(expect_ok(mk_out(u.length, L), "output ok"))
+
+    def mk_same(ref, ret):
+        def thunk(ran):
+            @validate_output_same("p")
+            def f(p):
+                return ret
+            return f(ref)
+        return thunk
+    out.append(expect_ok(mk_same(L, Quantity(5 * u.kilometer)), "validate_output_same: result of the reference's dimension"))
+    out.append(expect_refusal(mk_same(L, T), "return", "validate_output_same: result of another dimension"))
+    out.append(expect_refusal(mk_same(Quantity(0 * u.meter), T), "return", "validate_output_same: a ZERO-valued reference must not excuse a result of another dimension"))
+    out.append(expect_refusal(mk_same(Quantity(0, dimension=u.length), T), "return", "validate_output_same: zero reference with explicit dimension"))
+    out.append(expect_refusal(mk_same(Quantity(sp.oo, dimension=u.length), T), "return", "validate_output_same: infinite reference"))
     out.append(expect_refusal(mk_out(u.length, [Quantity(0 * u.meter), Quantity(7)]), "return", "output sequence: zero quantity before a dimensionless quantity"))
     out.append(expect_refusal(mk_out(u.length, [L, T]), "return", "output sequence: second element of wrong dimension"))
     out.append(expect_refusal(mk_out(u.time, L), "return", "output of wrong dimension"))
@@ -567,7 +614,9 @@ def convert_pool():
     from symplyphysics import Quantity
     return [u.meter, u.kilometer, u.centimeter, u.second, u.millisecond, u.hour, u.gram, u.kilogram, u.newton, u.joule, u.kelvin, u.radian, u.degree,
             u.meter / u.second, u.kilometer / u.hour, u.kilogram * u.meter**2 / u.second**2, Quantity(3 * u.kilojoule if hasattr(u, "kilojoule") else 3000 * u.joule),
-            Quantity(5), sp.Integer(2), Quantity(0 * u.meter), u.ampere * u.second, u.coulomb, u.mole, u.candela]
+            Quantity(5), sp.Integer(2), Quantity(0 * u.meter), u.ampere * u.second, u.coulomb, u.mole, u.candela,
+            # base dimensions without an SI base unit: conversions that would drop them must be refused
+            u.byte, u.bit, Quantity(2 * u.byte * u.meter), Quantity(8 * u.bit / u.second)]
 
 
 def check_convert(i, j):
@@ -591,7 +640,7 @@ def check_convert(i, j):
         return f"convert_to({a}, {b}) returned {n} although dimensions are inequivalent"
     if same and sp.simplify(n * qb.scale_factor - qa.scale_factor) != 0:
         return f"convert_to({a}, {b}) = {n}: n*unit != quantity"
-    if i == j:
+    if i == j and not (set(dim_vec(qa.dimension)) - {"mass", "length", "time", "current", "temperature", "amount_of_substance", "luminous_intensity", "angle"}):
         si = dimension_to_si_unit(qa.dimension)
         qsi = Quantity(si)
         dv = dim_vec(qa.dimension)
@@ -604,7 +653,7 @@ def check_convert(i, j):
     return None
 
 
-CELSIUS_SAMPLES = [-273.15, -40, 0, 0.001, 29.7646, 36.6, 100, 961.78, 1064.18, 1e4 + 0.0625]
+CELSIUS_SAMPLES = [-273.15, -40, 0, 0.001, 29.7646, 36.6, 100, 961.78, 1064.18, 1e4 + 0.0625, -300.0, -273.16]  # the last two: below absolute zero (the helpers allow it)
 
 
 def check_celsius(i):
@@ -937,6 +986,9 @@ def leaves_expression():
     plain = sp.Symbol("p")
     from symplyphysics.core.operations.symbolic import Average, FiniteDifference
     symbolic = [Average(x), FiniteDifference(t)]  # declare a dimension without being a Quantity or a DimensionSymbol
+    i2 = Function("I", [x, t], u.current)
+    # derivatives whose variable list repeats a variable NON-adjacently (SymPy merges only adjacent repeats), and a second-order one
+    symbolic += [sp.Derivative(i2(x, t), x, t, x), sp.Derivative(i2(x, t), (x, 2), t), sp.Derivative(f(t), (t, 2))]
     return symbolic + [S.Zero, S.One, sp.Integer(2), sp.Integer(-1), sp.Rational(1, 2), sp.Float(2.5), oo, x, t, m, k, f(t), plain,
             Quantity(0), Quantity(0, dimension=u.length), Quantity(2 * u.meter), Quantity(3 * u.second), Quantity(5), u.meter, u.second,
             sp.Derivative(f(t), t), x / t, x * Quantity(2 * u.meter)]
@@ -985,7 +1037,9 @@ def approx_pool():
            Quantity((2 + 5000 * sp.I) * u.meter), Quantity((0.0005 + 5 * sp.I) * u.kilometer),
            # magnitudes far below pytest.approx's own default absolute tolerance (1e-12): the verdict must not depend on it
            Quantity(sp.Float("1.602e-19") * u.meter), Quantity(sp.Float("3.204e-19") * u.meter), Quantity(sp.Float("1.0000e-19") * u.meter),
-           Quantity(sp.Float("1.0011e-19") * u.meter), Quantity(sp.Float("5e-13") * u.meter), Quantity(sp.Float("-4e-13") * u.meter)]
+           Quantity(sp.Float("1.0011e-19") * u.meter), Quantity(sp.Float("5e-13") * u.meter), Quantity(sp.Float("-4e-13") * u.meter),
+           # a base dimension without an SI base unit must not drop out of the dimension comparison
+           Quantity(8 * u.bit / u.second), Quantity(8 / u.second), Quantity(2 * u.byte * u.meter), Quantity(16 * u.meter)]
     tols = [(None, None), (0, 1e-6), (0.01, None), (None, 1.0), (0.0, None), (None, 0.01)]
     dims = [None, u.length, u.time]
     return ops, tols, dims
@@ -1074,6 +1128,11 @@ def approx_vector_scenarios():
         ("lhs longer by a zero component", [m(1), m(2), m(0)], [m(1), m(2)], {}, False),
         ("rhs longer by a component below the absolute tolerance", [m(1), m(2)], [m(1), m(2), m(1e-9)], {"absolute_tolerance": 1e-6}, False),
         ("empty against one component", [], [m(0)], {}, False),
+        # the tolerance is relative to EACH component pair, not to the largest component of the vector
+        ("small component off by 50 % next to a large one", [m(1000), m(1)], [m(1000), m(1.5)], {}, False),
+        ("first component off by 0.2 % next to a large third one", [m(1.002), m(2), m(300)], [m(1), m(2), m(300)], {}, False),
+        ("zero against ten next to a million", [m(0), m(0), m(1e6)], [m(0), m(10), m(1e6)], {}, False),
+        ("mixed magnitudes, every pair within 0.1 %", [m(1000), m(1)], [m(1000.5), m(1.0005)], {}, True),
         ("three equal components, other unit prefix", [m(1), m(2), m(3)], [Quantity(100 * u.centimeter), Quantity(0.002 * u.kilometer), m(3)], {}, True),
     ]
 
